@@ -338,7 +338,11 @@ func groupSamRecords(sam io.Reader, cHeader chan biogosam.Header, chnl chan samR
 
 	s, err := biogosam.NewReader(sam)
 	if err != nil {
+		if err == io.EOF {
+			err = errors.New("empty sam file")
+		}
 		cerr <- err
+		return
 	}
 
 	cHeader <- *s.Header()
